@@ -325,11 +325,14 @@ def run_script(port, steps, tfactor=1.0):
             if st[0] == "send":
                 c.send(st[1])
             elif st[0] == "wait_done":
-                if c.wait_done(st[1], st[2] * tfactor) is None:
-                    timeouts.append(list(st[:2]) + [st[2] * tfactor])
+                # once a bound has been missed the verdict is known: do not sit out the later bounds
+                lim = st[2] * tfactor if not timeouts else min(st[2] * tfactor, 2.0)
+                if c.wait_done(st[1], lim) is None:
+                    timeouts.append(list(st[:2]) + [lim])
             elif st[0] == "wait_key":
-                if c.wait_key(st[1], st[2], st[3] * tfactor) is None:
-                    timeouts.append(list(st[:3]) + [st[3] * tfactor])
+                lim = st[3] * tfactor if not timeouts else min(st[3] * tfactor, 2.0)
+                if c.wait_key(st[1], st[2], lim) is None:
+                    timeouts.append(list(st[:3]) + [lim])
             elif st[0] == "sleep":
                 time.sleep(st[1])
         # grace period: a message after the last awaited `done` would be a violation
@@ -380,6 +383,7 @@ class Scenario:
         self.kinds = []     # per message index: (kind, session, prog-sexp or None)
         self.n = 0
         self.no_model = False   # trace too large / too many print steps for the model replay
+        self.meta = {}
 
     def _id(self):
         i = self.n
@@ -559,6 +563,10 @@ def oracle(sc, res):
 
 
 # --------------------------------------------------------------------------- schedules
+# set by run_configs from a measurement: number of `fun` definitions whose parse+load takes ~1.5 s
+PARAMS = {"defs": 4000, "load_s": 2.0}
+
+
 def busy(k):
     """Garden source that spins for k loop iterations without output (one model `nop`)."""
     return "let j = 0 while j < %d { j += 1 } " % k
@@ -720,6 +728,36 @@ def make_scenario(kind, rng, k100):
         sc.wait(k, 5)
         r2 = sc.ev(S1, "1", [], out="", status=UNK)
         sc.wait(r2)
+    elif kind in ("parse_window_hook", "parse_window_big"):
+        # An interrupt acknowledged after the request was handed to the worker but before the
+        # interpreter loop starts (during parse/load) must still stop the eval.  The failing import
+        # makes the worker send a diagnostic `err` message after parse/load and before the loop: an
+        # observable marker of where the worker is.
+        w = sc.ev(S1, "1", [("nop",)], fin=("lit", "1"), status=DONE, value="1")   # worker warm and idle
+        sc.wait(w, 30)
+        marker = 'import "./nosuch_c31_probe_%s.gdn"\n' % tok()
+        if kind == "parse_window_hook":
+            # needs delay before_eval_loop: wait for the marker, then interrupt during the stall
+            r = sc.ev(S1, marker + "while True { 1 }", [], loop=[("nop",)], start="warn", status=INT)
+            sc.steps.append(("wait_key", r, "err", 20))
+            i = sc.op("interrupt", "interrupt", session=S1, expect=dict(status=DONE))
+            sc.wait(r, 8)
+        else:
+            # no hook: a submission whose parse+load takes >= ~1 s; `ls-sessions` is pipelined behind it,
+            # so its reply means the reader has handed the eval to the worker
+            tag = tok()
+            defs = "".join("fun seed_%s_%d(x: Int): Int { let y = x + %d\n y * 2 }\n" % (tag, j, j)
+                           for j in range(PARAMS["defs"]))
+            r = sc.ev(S1, marker + defs + "while True { 1 }", [], loop=[("nop",)], start="warn", status=INT)
+            pl = sc.op("ls-sessions", "ls", expect=dict(status=DONE))
+            sc.wait(pl, 60)
+            sc.sleep(rng.uniform(0.3, 0.5))
+            i = sc.op("interrupt", "interrupt", session=S1, expect=dict(status=DONE))
+            sc.wait(r, min(30.0, PARAMS["load_s"] * 3 + 8))
+        sc.wait(i, 5)
+        sc.meta = dict(eval=r, interrupt=i)
+        r2 = sc.ev(S1, 'println("after")', [("out", "after\n")], out="after\n", status=DONE, value="Unit")
+        sc.wait(r2, 20)
     elif kind == "close_before_reset":
         # close lands between the dequeue and the flag reset (needs after_dequeue delay)
         t = tok()
@@ -749,6 +787,28 @@ def calibrate(garden, scratch):
     return max(2000, min(400000, int(20000 * 100 / msec)))
 
 
+def calibrate_load(garden, scratch):
+    """Seconds the worker needs to parse+load 1000 small function definitions (hand-over to done)."""
+    with Server(garden, scratch, {}, life_s=120) as s:
+        c = Client(s.port)
+        try:
+            c.send({"op": "clone", "id": "0"})
+            c.wait_done("0", 30)
+            c.send({"op": "eval", "id": "1", "session": "garden-1", "code": "1"})
+            c.wait_done("1", 60)
+            defs = "".join("fun cal_%d(x: Int): Int { let y = x + %d\n y * 2 }\n" % (j, j) for j in range(1000))
+            c.send({"op": "eval", "id": "2", "session": "garden-1", "code": defs + "1"})
+            c.send({"op": "ls-sessions", "id": "3"})
+            if c.wait_done("3", 60) is None:
+                return None
+            t0 = time.time()
+            if c.wait_done("2", 120) is None:
+                return None
+            return max(0.02, time.time() - t0)
+        finally:
+            c.close()
+
+
 def run_schedule(garden, scratch, kind, delays, n, seed, k100, life_s=150, par=8, tfactor=1.0, scenarios=None):
     """n scripted clients of one schedule against one server (parallel connections).
     Returns list of (scenario, result)."""
@@ -773,7 +833,7 @@ def run_schedule(garden, scratch, kind, delays, n, seed, k100, life_s=150, par=8
 
 
 # --------------------------------------------------------------------------- shared driver for c30 / c31
-def run_configs(ctx, prop, configs, n, extra_oracle=None):
+def run_configs(ctx, prop, configs, n, extra_oracle=None, n_by_kind=None):
     """configs: list of (schedule kind, delays dict). Runs n scripted clients per config (one server
     per config), the direct oracle on every raw trace and the model replay of every trace."""
     from . import common
@@ -785,6 +845,19 @@ def run_configs(ctx, prop, configs, n, extra_oracle=None):
         ctx.notes.append("busy-loop calibration failed (%r); using the default" % (e,))
         k100 = 20000
     ctx.cov["busy_iterations_per_100ms"] = k100
+    n_by_kind = n_by_kind or {}
+    if any(k == "parse_window_big" for k, _ in configs):
+        try:
+            t1000 = calibrate_load(garden, os.path.join(base, "calload"))
+        except Exception as e:
+            t1000 = None
+            ctx.notes.append("parse/load calibration failed (%r); using the default" % (e,))
+        if t1000:
+            # at least 4000 definitions (>= ~1.3 s of parse+load on an idle machine, where 1000 take ~0.3 s):
+            # a calibration taken on a loaded machine over-estimates the time per definition
+            PARAMS["defs"] = max(4000, min(8000, int(1000 * 1.5 / t1000)))
+            PARAMS["load_s"] = max(1.0, t1000 * PARAMS["defs"] / 1000.0)
+        ctx.cov["parse_window"] = dict(load_1000_defs_s=t1000 and round(t1000, 2), defs=PARAMS["defs"])
     seeds = [ctx.rng.getrandbits(32) for _ in configs]
 
     retried = dict(schedules_resource=0, scripts_timeout=0, scripts_still_failing=0)
@@ -794,8 +867,8 @@ def run_configs(ctx, prop, configs, n, extra_oracle=None):
         last = None
         for a in range(2):           # a server that does not come up on a loaded machine: once more
             try:
-                return run_schedule(garden, os.path.join(base, "srv%d%s%d" % (ix, tag, a)), kind, delays, n,
-                                    seeds[ix], k100, **kw)
+                return run_schedule(garden, os.path.join(base, "srv%d%s%d" % (ix, tag, a)), kind, delays,
+                                    n_by_kind.get(kind, n), seeds[ix], k100, **kw)
             except Exception as e:
                 last = e
                 time.sleep(1.0)
@@ -861,13 +934,25 @@ def run_configs(ctx, prop, configs, n, extra_oracle=None):
             for key, what in bad:
                 full = key if key.startswith(prop + "/") else "%s/%s/%s" % (prop, kind, key)
                 ctx.fail(full, "[%s, delays %s] %s" % (kind, dl, what), **replay)
-            ctx.case((kind, dl, [m for m in sc.steps if m[0] == "send"]), nontrivial=multi or intr or kind in ("two_sessions", "closed_session", "flusher_gap", "big_output"))
+            ctx.case((kind, dl, [m for m in sc.steps if m[0] == "send"]), nontrivial=multi or intr or kind in ("two_sessions", "closed_session", "flusher_gap", "big_output") or kind.startswith("parse_window"))
             ctx.sample(dict(schedule=kind, delays=dl, received=[abbreviate(m, 200) for m in res["received"][:8]]))
             if kind == "big_output":
                 for m in res["received"]:
                     for key in ("out", "err"):
                         if key in m:
                             stats["max_payload_bytes"] = max(stats.get("max_payload_bytes", 0), len(_b(m[key])))
+            if kind.startswith("parse_window") and sc.meta:
+                # was the interrupt acknowledged before the worker's post-load diagnostic arrived,
+                # i.e. did it really land before the interpreter loop (parse_window_big), resp. after
+                # the diagnostic during the hook's stall (parse_window_hook)?
+                ack = next((j for j, m in enumerate(res["received"]) if m.get("id") == sc.meta["interrupt"]), None)
+                mark = next((j for j, m in enumerate(res["received"])
+                             if m.get("id") == sc.meta["eval"] and "err" in m and "status" not in m), None)
+                if ack is not None and mark is not None:
+                    key = "parse_window_big_interrupt_before_load_end" if kind == "parse_window_big" \
+                        else "parse_window_hook_interrupt_after_marker"
+                    hit = (ack < mark) if kind == "parse_window_big" else (ack > mark)
+                    stats[key] = stats.get(key, 0) + int(hit)
             if sc.no_model:
                 stats["oracle_only"] = stats.get("oracle_only", 0) + 1
                 continue
